@@ -400,16 +400,25 @@ def scale_part(run, ck, specs):
         if not spec.get("agree", True) or "dtypes" in spec:
             continue
         tpos = [k for k, o in enumerate(spec["ops"]) if o[0] == "T" and len(o[1]) >= 1]
-        if not tpos:
+        ppos = [k for k, o in enumerate(spec["ops"]) if o[0] in "PU" and len(o[1]) >= 1]
+        if not tpos and not ppos:
             continue
-        k0 = tpos[0]
+        k0 = tpos[0] if tpos else ppos[0]
         shape = spec["ops"][k0][1]
-        for axis in list(range(len(shape))) + ["zeros"]:
-            if axis != "zeros" and shape[axis] < 2:
+        for axis in ((list(range(len(shape))) + ["zeros"]) if tpos else []) + (["tiny"] if ppos else []):
+            if axis not in ("zeros", "tiny") and shape[axis] < 2:
                 continue
             rng = np.random.default_rng([ck.seed, si, 7])
             data = [None if o[0] in "SI" else (rng.uniform(0.1, 0.9, o[1]) if o[0] in "PU" else rng.uniform(0.5, 2.0, o[1])).astype(np.float32) for o in spec["ops"]]
-            if axis == "zeros":
+            if axis == "tiny":
+                # probabilities next to 0 (1e-8 is below float32's machine epsilon, 1e-20 far below, 0 itself): guards such as clip(p, eps, 1-eps) must not depend on the dtype
+                k0 = ppos[0]
+                shape = spec["ops"][k0][1]
+                flat = data[k0].reshape(-1)
+                flat[::2] = np.resize(np.array([1e-8, 1e-20, 0.0, 3e-8], dtype=np.float32), flat[::2].shape)
+                data[k0] = flat.reshape(shape)
+                axis, how = 0, "holding probabilities 1e-8, 1e-20, 0 and 3e-8 at every other position"
+            elif axis == "zeros":
                 # exact zeros (a relu output, a zero-initialised weight) in every other position: guards such as log(x + eps) must not depend on the dtype
                 flat = data[k0].reshape(-1)
                 flat[::2] = 0.0
